@@ -360,6 +360,31 @@ fn main() {
             .init();
     }
     std::panic::set_hook(Box::new(|_| {}));
+    // Watchdog: a case that does not return (a task spinning inside one poll never yields, so no
+    // tokio timeout can fire) is reported as `hung` and ends the process; the check restarts the
+    // harness on the remaining cases.  VERIF_CASE_TIMEOUT = seconds of wall time per case.
+    let limit: u64 = std::env::var("VERIF_CASE_TIMEOUT")
+        .ok()
+        .and_then(|x| x.parse().ok())
+        .unwrap_or(60);
+    let started = Arc::new(Mutex::new(None::<std::time::Instant>));
+    {
+        let started = started.clone();
+        std::thread::spawn(move || loop {
+            std::thread::sleep(std::time::Duration::from_millis(250));
+            let t = *started.lock().unwrap();
+            if let Some(t) = t {
+                if t.elapsed().as_secs() >= limit {
+                    // raw write: the main thread may hold the stdout lock while it spins
+                    let msg = b"@@hung\n";
+                    unsafe {
+                        libc::write(1, msg.as_ptr() as *const libc::c_void, msg.len());
+                    }
+                    std::process::exit(3);
+                }
+            }
+        });
+    }
     let stdin = std::io::stdin();
     let stdout = std::io::stdout();
     let mut out = std::io::BufWriter::new(stdout.lock());
@@ -377,9 +402,11 @@ fn main() {
             .start_paused(!real_time)
             .build()
             .unwrap();
+        *started.lock().unwrap() = Some(std::time::Instant::now());
         let res = std::panic::catch_unwind(std::panic::AssertUnwindSafe(|| {
             rt.block_on(run_case(&line))
         }));
+        *started.lock().unwrap() = None;
         let res = match res {
             Ok(x) => x,
             Err(_) => "harness-panic".to_string(),
